@@ -95,7 +95,10 @@ def dbJ : Except Err DB → Json
     let canon := db.canonical.mergeSort fun a b => strLe a.1 b.1
     Json.mkObj [("known", impsJ db.known), ("mandatory", impsJ db.mandatory), ("forget", impsJ db.forget),
                 ("canonical", Json.arr (canon.map fun kv => Json.arr #[strJ kv.1, strJ kv.2]).toArray),
-                ("bfi", idxJ (byFullnameOrImportAs db)), ("bfi_fixed", idxJ (byFullnameOrImportAsFixed db))]
+                ("bfi", idxJ (byFullnameOrImportAs db)), ("bfi_fixed", idxJ (byFullnameOrImportAsFixed db)),
+                ("canonical_fixed",
+                  Json.arr ((db.fixCanon.canonical.mergeSort fun a b => strLe a.1 b.1).map
+                    fun kv => Json.arr #[strJ kv.1, strJ kv.2]).toArray)]
 
 def ostrJ : Option Str → Json
   | none => Json.null
@@ -135,7 +138,11 @@ def handle (j : Json) : Except String Json := do
     let home ← jstr j "home"
     let cwd ← jstr j "cwd"
     let etc ← jStrList (← jarr j "etc")
-    let w : World := ⟨dev, ch, toStr home, absPath [] (toStr cwd), etc⟩
+    -- where the scratch root really is (only its `/dev` prefix matters) and which `/dev` test the tree has
+    let mount := (jstr j "mount").toOption.getD ""
+    let devfix := (jbool j "devfix").toOption.getD false
+    let w : World := { rootDev := dev, rootCh := ch, home := toStr home, cwd := absPath [] (toStr cwd), etc := etc,
+                       mount := toStr mount, devStreamsOnly := devfix }
     let queries ← (← jarr j "queries").toList.mapM queryOf
     let hists ← (← jarr j "histories").toList.mapM fun h => do (← h.getArr?).toList.mapM queryOf
     let fresh := queries.map fun q =>
